@@ -1,12 +1,17 @@
 //! Registry: property id -> clauses.
 use crate::core::Clause;
 
+pub mod c02;
+pub mod c03;
 pub mod c15;
+pub mod common;
 
 pub const PROPERTIES: [&str; 18] = ["C01", "C02", "C03", "C04", "C05", "C06", "C07", "C08", "C09", "C10", "C11", "C12", "C13", "C14", "C15", "C16", "C17", "C18"];
 
 pub fn clauses(property: &str) -> Vec<Clause> {
     match property {
+        "C02" => c02::clauses(),
+        "C03" => c03::clauses(),
         "C15" => c15::clauses(),
         _ => vec![],
     }
@@ -14,6 +19,8 @@ pub fn clauses(property: &str) -> Vec<Clause> {
 
 pub fn property_rule(property: &str) -> String {
     match property {
+        "C02" => "windowed view run in exact arithmetic (and f64) vs the batch definition over exactly the last N raw values, every step".into(),
+        "C03" => "two runs of the same view on histories with different prefixes and a common suffix agree once K suffix values are consumed".into(),
         "C15" => "no unwind out of update()/last() for any constructed view, both cargo profiles".into(),
         _ => String::new(),
     }
@@ -25,6 +32,14 @@ pub fn property_assumptions(property: &str) -> Vec<String> {
         "proptest 1.11 generators and shrinking; a run is a pure function of (/repo tree, VERIF_SEED, tier)".to_string(),
     ];
     match property {
+        "C02" => {
+            v.push("Q (exact rational scalar) models the num::Float operations the crate uses: + - * / comparisons exactly, sqrt/log2 to 2^-192".into());
+            v.push("f64 leg: dyadic inputs |x| <= 2^15, tolerance 1e-9 x largest magnitude seen (3.3e-5 x for a std, 1e-6 relative for std ratios on windows with var >= 1e-6 max|x|^2; flat or nearly flat windows are exempt there and belong to C16)".into());
+        }
+        "C03" => {
+            v.push("K table as in the statement (N; N+1 for Rsi/MyRSI/Roc; 2N for Alma; N+M-1 for PFE over Sma(M), N+2M-1 over Alma(M))".into());
+            v.push("f64 leg only for views whose floating-point residue is bounded by 1e-9 x magnitude (running sums of inputs or recomputation from the stored window); the ratio views (Welford std, Vst, Vsct, Rsi, MyRSI) are decided in Q and their rounding residue belongs to C16".into());
+        }
         "C15" => v.push("'moderate magnitude' = 0 or 1e-3 <= |x| <= 1e6; f32 legs use |x| <= 32768; positive raw input wherever Drawdown/LnReturn/Divide's divisor need it".into()),
         _ => {}
     }
